@@ -64,7 +64,16 @@ def specs(rng, tier, wid, nw, env):
         if k % nw == wid: yield ('fac', n, rng.getrandbits(48))
     tri = [(n, kk) for n in range(0, 601) for kk in range(0, n + 1)]
     if q: tri = rng.sample(tri, 1500) + [(n, kk) for n in range(0, 40) for kk in range(0, n + 1)]
-    for (n, kk) in tri + binregions(rng, q):
+    # random points inside each algorithm region of mpz_bin_uiui (Goetgheluck: k > 1000 and k > n/16; bdiv: 70 < k <= n/16; smallkdc: 26..70; smallk: <= 25)
+    rpts = []
+    for i in range(300 if q else 6000):
+        n = rng.choice([rng.randint(2002, 6000), rng.randint(2002, 40000), rng.randint(2002, 250000)]); lo = max(1001, (n >> 4) + 1)
+        if lo < n // 2: rpts.append((n, rng.choice([rng.randint(lo, n // 2), n - rng.randint(lo, n // 2)])))
+    for i in range(150 if q else 3000):
+        n = rng.randint(1200, 2000000); hi = n >> 4
+        if hi > 71: rpts.append((n, rng.randint(71, min(hi, 3000))))
+        rpts.append((rng.choice([rng.randint(68, 5000), rng.getrandbits(rng.randint(8, 64)) + 68]), rng.randint(2, 70)))
+    for (n, kk) in tri + binregions(rng, q) + rpts:
         k += 1
         if k % nw == wid: yield ('bin', n, kk, 0)
     fs = sorted(set(range(0, 400 if q else 5001)) | set(gen.ladder(400, 200000 if q else 3000000, 1.5 if q else 1.2)))
